@@ -37,6 +37,8 @@ Definition g_step (g : gen) (st : gs) : gs * float :=
       if (k =? 0) || ((s >> 3) mod 32 =? 0) then (a + (b - a) * u)%float else s_x st
     else if g_gen g =? 5 then (a + (b - a) * (PrimFloat.of_uint63 (k mod 97) / 97))%float
     else if g_gen g =? 6 then a
+    else if g_gen g =? 7 then
+      if ((s >> 3) mod 64 =? 0) then b else (a * (1 + u * 0x1p-26))%float
     else (a + (b - a) * u)%float in
   (mkGs s x (k + 1), x).
 
